@@ -681,6 +681,20 @@ class Interp:
             mu = load(A[0].fields[0].fields[0]); arr = mu.fields[1].fields[0].fields[0]
             return SeqM(list(arr.fields))
         # ---- thread locals / RefCell
+        if g.endswith('LocalKey::new'):
+            name = caller.name
+            initf = s.p.fns.get(name + '::__rust_std_internal_init_fn')
+            if initf is None: raise Unsupported('tls init fn for ' + name)
+            key = s.tls.get(name)
+            if key is None:
+                def mk(initf=initf):
+                    g_ = s.call_fn(ctx, initf, [])
+                    try:
+                        next(g_); raise Unsupported('tls init yielded')
+                    except StopIteration as e: return e.value
+                key = TlsKey(name, mk); s.tls[name] = key
+            return key
+        if g.endswith('RefCell::new'): return RefCellM(A[0], 'refcell')
         if g.endswith('LocalKey::with'):
             key = deref(A[0])
             if ctx.tid not in key.per_thread:
